@@ -21,27 +21,43 @@ import (
 	"os"
 	"path/filepath"
 	"strconv"
+	"strings"
 	"testing"
 )
 
+// zzC01Step is one configuration of a walk with its verdict tables: Tab for
+// a question this server is asked for the first time, TabR for one it has
+// been asked before (emitted only with the response cache on; otherwise the
+// two are the same).
+type zzC01Step struct {
+	CI   int            `json:"ci"`
+	Cfg  zzC0102Cfg     `json:"cfg"`
+	Tab  [][]zzC0102Out `json:"tab"`
+	TabR [][]zzC0102Out `json:"tabr"`
+}
+
+// zzC01Line is a header (the query list) or a walk: the configurations ONE
+// live server goes through, in order.
 type zzC01Line struct {
-	Kind    string         `json:"kind"`
-	I       int            `json:"i"`
-	Queries []zzC0102Req   `json:"queries"`
-	Cfg     zzC0102Cfg     `json:"cfg"`
-	Tab     [][]zzC0102Out `json:"tab"`
-	UDP     bool           `json:"udp"`
+	Kind    string       `json:"kind"`
+	I       int          `json:"i"`
+	Queries []zzC0102Req `json:"queries"`
+	Steps   []zzC01Step  `json:"steps"`
+	UDP     bool         `json:"udp"`
 }
 
 type zzC01Bad struct {
 	Kind     string       `json:"kind"`
 	I        int          `json:"i"`
+	S        int          `json:"s"`
 	Q        int          `json:"q"`
 	Req      zzC0102Req   `json:"req"`
+	Rep      bool         `json:"rep"`
 	Got      zzC0102Out   `json:"got"`
 	Want     []zzC0102Out `json:"want"`
 	Concrete string       `json:"concrete"`
 	Lists    any          `json:"lists"`
+	History  any          `json:"history"`
 }
 
 func TestZZVerifC01Replay(t *testing.T) {
@@ -55,7 +71,7 @@ func TestZZVerifC01Replay(t *testing.T) {
 
 	dir := zzC0102WorkDir(t)
 	var queries []zzC0102Req
-	lineNo, cfgs, evals, bad, viaUDP := 0, 0, 0, 0, 0
+	lineNo, walks, cfgs, evals, bad, viaUDP, reconfs := 0, 0, 0, 0, 0, 0, 0
 	zzReadNDJSON(t, "VERIF_IN", func(b []byte) {
 		var l zzC01Line
 		if err := json.Unmarshal(b, &l); err != nil {
@@ -75,9 +91,9 @@ func TestZZVerifC01Replay(t *testing.T) {
 
 		rng := rand.New(rand.NewSource(zzSeed()*1000003 + int64(l.I)))
 		d := filepath.Join(dir, strconv.Itoa(l.I))
-		z, err := zzC0102Build(&l.Cfg, d, rng)
+		z, err := zzC0102Build(&l.Steps[0].Cfg, d, rng)
 		if err != nil {
-			w.put(map[string]any{"kind": "skip", "i": l.I, "err": err.Error()})
+			w.put(map[string]any{"kind": "skip", "i": l.I, "configs": len(l.Steps), "err": err.Error()})
 
 			return
 		}
@@ -85,53 +101,82 @@ func TestZZVerifC01Replay(t *testing.T) {
 
 		udp := ""
 		if l.UDP {
-			// A sample of configurations is also driven through a real
-			// socket; only c2-style requests (the source address is the
-			// loopback address then, which is neither c1 nor c2 -- so this
-			// is used only where no rule and no setting depends on the
-			// client).
+			// A sample of walks is also driven through a real socket; only
+			// c2 requests (the source address is the loopback address then,
+			// which is neither c1 nor c2: no rule and no setting of any
+			// universe depends on it).
 			if err = z.s.Start(); err == nil {
 				udp = z.s.dnsProxy.Addr("udp").String()
 				defer func() { _ = z.s.Stop() }()
 			}
 		}
 
-		cfgs++
-		for qi := range queries {
-			req := &queries[qi]
-			via := ""
-			if udp != "" && req.Client == "c2" {
-				via = udp
-				viaUDP++
-			}
-			o := z.query(req, zzC0102Harmless(req.Qtype), rng, via)
-			evals++
-			if zzC0102Admissible(o.Out, l.Tab[qi]) {
-				continue
-			}
+		walks++
+		var history []any
+		for si := range l.Steps {
+			st := &l.Steps[si]
+			if si > 0 {
+				// The SAME live server, reconfigured.
+				if err = z.reconfigure(&st.Cfg, rng); err != nil {
+					w.put(map[string]any{"kind": "skip", "i": l.I, "s": si, "configs": len(l.Steps) - si,
+						"err": err.Error(), "ops": z.ops})
 
-			// Once more, to tell a flaky observation from a reproducible one.
-			o2 := z.query(req, zzC0102Harmless(req.Qtype), rng, via)
-			if zzC0102Admissible(o2.Out, l.Tab[qi]) {
-				w.put(map[string]any{"kind": "flaky", "i": l.I, "q": qi, "first": o, "second": o2})
-
-				continue
+					return
+				}
+				reconfs++
 			}
 
-			bad++
-			w.put(zzC01Bad{
-				Kind: "bad", I: l.I, Q: qi, Req: *req, Got: o2.Out, Want: l.Tab[qi],
-				Concrete: o2.Concrete, Lists: z.texts,
-			})
+			cfgs++
+			history = append(history, z.texts)
+			// With the cache on every request is sent twice: the second
+			// answer must equal the first.
+			sends := 1
+			if st.Cfg.Cache {
+				sends = 2
+			}
+			for qi := range queries {
+				req := &queries[qi]
+				via := ""
+				if udp != "" && req.Client == "c2" {
+					via = udp
+				}
+
+				for k := 0; k < sends; k++ {
+					if via != "" {
+						viaUDP++
+					}
+
+					ans := zzC0102Harmless(req.Qtype)
+					o := z.query(req, ans, rng, via)
+					evals++
+					want := st.Tab[qi]
+					if o.Rep && st.Cfg.Cache {
+						want = st.TabR[qi]
+					}
+					if zzC0102Admissible(o.Out, want) {
+						continue
+					}
+
+					bad++
+					if bad <= 300 {
+						w.put(zzC01Bad{
+							Kind: "bad", I: l.I, S: si, Q: qi, Req: *req, Rep: o.Rep, Got: o.Out, Want: want,
+							Concrete: o.Concrete, Lists: z.texts, History: history,
+						})
+					}
+
+					break
+				}
+			}
 		}
 
-		if cfgs <= 2 {
-			o := z.query(&queries[0], zzC0102Harmless(queries[0].Qtype), rng, "")
-			w.put(map[string]any{"kind": "sample", "i": l.I, "lists": z.texts, "obs": o})
+		if walks <= 2 {
+			w.put(map[string]any{"kind": "sample", "i": l.I, "history": history, "ops": z.ops})
 		}
 	})
 
-	w.put(map[string]any{"kind": "summary", "shard": idx, "configs": cfgs, "evals": evals, "bad": bad, "udp": viaUDP})
+	w.put(map[string]any{"kind": "summary", "shard": idx, "walks": walks, "configs": cfgs, "evals": evals,
+		"bad": bad, "udp": viaUDP, "reconfigurations": reconfs})
 }
 
 // ---------------------------------------------------------------- direction B
@@ -205,15 +250,14 @@ func zzC01Engine(place string) (e string) {
 	}
 }
 
-// zzC01RandCfg draws a configuration of up to 12 rules.
-func zzC01RandCfg(rng *rand.Rand) (cfg zzC0102Cfg, targets [][]string) {
-	base := zzC01RandName(rng, 3)
-	targets = [][]string{base, append([]string{zzC01Labels[rng.Intn(4)]}, base...), zzC01RandName(rng, 4), {"4chan", "org"}}
-	if rng.Intn(2) == 0 {
-		targets = append(targets, append([]string{"b", "a"}, base...))
-	}
-
+// zzC01RandRules draws up to 12 rules over the targets (plus at most one
+// $badfilter twin per engine).
+func zzC01RandRules(rng *rand.Rand, targets [][]string) (rules []zzC0102Rule) {
+	cfg := &zzC0102Cfg{Rules: []zzC0102Rule{}}
 	nr := rng.Intn(13)
+	if rng.Intn(6) == 0 {
+		nr = 0
+	}
 	for i := 0; i < nr; i++ {
 		cfg.Rules = append(cfg.Rules, zzC01RandRule(rng, targets, i+1))
 	}
@@ -249,6 +293,19 @@ func zzC01RandCfg(rng *rand.Rand) (cfg zzC0102Cfg, targets [][]string) {
 		cfg.Rules = append(cfg.Rules, b)
 	}
 
+	return cfg.Rules
+}
+
+// zzC01RandCfg draws a configuration of up to 12 rules.
+func zzC01RandCfg(rng *rand.Rand) (cfg zzC0102Cfg, targets [][]string) {
+	base := zzC01RandName(rng, 3)
+	targets = [][]string{base, append([]string{zzC01Labels[rng.Intn(4)]}, base...), zzC01RandName(rng, 4), {"4chan", "org"}}
+	if rng.Intn(2) == 0 {
+		targets = append(targets, append([]string{"b", "a"}, base...))
+	}
+
+	cfg.Rules = zzC01RandRules(rng, targets)
+	cfg.Cache = rng.Intn(3) == 0
 	cfg.Mode = []string{"default", "refused", "nxdomain", "null_ip", "custom_ip"}[rng.Intn(5)]
 	cfg.Prot = []string{"on", "on", "on", "off", "paused", "expired"}[rng.Intn(6)]
 	cfg.Filt = rng.Intn(5) != 0
@@ -293,30 +350,59 @@ func TestZZVerifC01Trace(t *testing.T) {
 			t.Fatalf("building %s: %v", zzC0102JSON(cfg), err)
 		}
 
-		w.put(map[string]any{"ev": "cfg", "ci": ci, "cfg": cfg, "lists": z.texts})
-		for qi := 0; qi < 24; qi++ {
-			n := targets[rng.Intn(len(targets))]
-			switch rng.Intn(5) {
-			case 0:
-				n = append([]string{zzC01Labels[rng.Intn(len(zzC01Labels))]}, n...)
-			case 1:
-				if len(n) > 2 {
-					n = n[1:]
+		// One live server: the first configuration, then up to two
+		// reconfigurations of its rule lists (other rules over the same
+		// targets, sometimes none at all), with requests after each.
+		cur := cfg
+		for step, steps := 0, 1+rng.Intn(3); step < steps; step++ {
+			if step > 0 {
+				next := cur
+				next.Rules = zzC01RandRules(rng, targets)
+				if rng.Intn(3) == 0 {
+					// drop every allow-list rule
+					kept := []zzC0102Rule{}
+					for _, r := range next.Rules {
+						if r.Place != "allow" {
+							kept = append(kept, r)
+						}
+					}
+					next.Rules = kept
 				}
-			case 2:
-				n = append([]string{"x" + n[0]}, n[1:]...)
-			}
-			if len(n) > 5 {
-				n = n[len(n)-5:]
+				next.Mode = []string{"default", "refused", "nxdomain", "null_ip", "custom_ip"}[rng.Intn(5)]
+				if err = z.reconfigure(&next, rng); err != nil {
+					t.Fatalf("reconfiguring: %v\n%s", err, strings.Join(z.ops, "\n"))
+				}
+				cur = next
 			}
 
-			req := zzC0102Req{
-				Name: n, Qtype: []string{"A", "AAAA", "HTTPS", "TXT"}[rng.Intn(4)],
-				Client: []string{"c1", "c2"}[rng.Intn(2)],
+			w.put(map[string]any{"ev": "cfg", "ci": ci, "step": step, "cfg": cur, "lists": z.texts})
+			for qi := 0; qi < 16; qi++ {
+				n := targets[rng.Intn(len(targets))]
+				switch rng.Intn(5) {
+				case 0:
+					n = append([]string{zzC01Labels[rng.Intn(len(zzC01Labels))]}, n...)
+				case 1:
+					if len(n) > 2 {
+						n = n[1:]
+					}
+				case 2:
+					n = append([]string{"x" + n[0]}, n[1:]...)
+				}
+				if len(n) > 5 {
+					n = n[len(n)-5:]
+				}
+
+				req := zzC0102Req{
+					Name: n, Qtype: []string{"A", "AAAA", "HTTPS", "TXT"}[rng.Intn(4)],
+					Client: []string{"c1", "c2"}[rng.Intn(2)],
+				}
+				ans := zzC0102Harmless(req.Qtype)
+				for k, sends := 0, 1+rng.Intn(2); k < sends; k++ {
+					o := z.query(&req, ans, rng, "")
+					w.put(map[string]any{"ev": "q", "req": req, "ans": zzC0102FullRRs(ans), "rep": o.Rep,
+						"obs": o.Out, "concrete": o.Concrete})
+				}
 			}
-			ans := zzC0102Harmless(req.Qtype)
-			o := z.query(&req, ans, rng, "")
-			w.put(map[string]any{"ev": "q", "req": req, "ans": zzC0102FullRRs(ans), "obs": o.Out, "concrete": o.Concrete})
 		}
 
 		z.close()
@@ -333,6 +419,9 @@ func zzC0102FullRRs(ans []zzC0102RR) (full []zzC0102RR) {
 	for i, a := range ans {
 		if a.N == nil {
 			a.N = []string{}
+		}
+		if a.O == nil {
+			a.O = []string{}
 		}
 		if a.H4 == nil {
 			a.H4 = []string{}
